@@ -2054,13 +2054,21 @@ class MatrixBase:
         vec._y = (x * self._ab) + (y * self._bb) + (z * self._cb)
         vec._z = (x * self._ac) + (y * self._bc) + (z * self._cc)
 
+    def _duplicate(self) -> Self:
+        """Return a new matrix with the same values. Unlike copy(), this never returns self."""
+        return self._from_raw(
+            self._aa, self._ab, self._ac,
+            self._ba, self._bb, self._bc,
+            self._ca, self._cb, self._cc,
+        )
+
     def __matmul__(self, other: 'MatrixBase | AngleBase') -> Self:
         if isinstance(other, MatrixBase):
-            mat = self.copy()
+            mat = self._duplicate()
             mat._mat_mul(other)
             return mat
         elif isinstance(other, AngleBase):
-            mat = self.copy()
+            mat = self._duplicate()
             mat._mat_mul(Py_Matrix.from_angle(other))
             return mat
         else:
@@ -2094,7 +2102,7 @@ class MatrixBase:
             cls = type(other)
             return mat._to_angle(cls.__new__(cls))
         elif isinstance(other, MatrixBase):
-            mat = other.copy()
+            mat = other._duplicate()
             mat._mat_mul(self)
             return mat
         else:
